@@ -21,5 +21,9 @@ Conforms == Admissible =>
    /\ \A f \in Feats : Same(Rec.noise_ft[f], NoiseVarOf(f))
    /\ Rec.batch_ok             \* every update computed from the pre-step state, then assigned together
    /\ Rec.pop_identity         \* prior mean of a population variable = its (averaged) latent value
+\* after the memory-less phase, a prior variance collapsing to exactly zero (every latent value equal to the pre-step mean): the step is
+\* refused as a whole with the convergence error - no parameter keeps a value unrelated to the statistics, none is modified
+Collapsed == ~burn /\ N >= 2 /\ VarRule[1] = 0 /\ (\A f \in Feats : NoiseVarOf(f)[2] > 0) /\ NoiseVarScalar[1] > 0
+RefusedWhole == Collapsed => (Rec.status = "LeaspyConvergenceError" /\ Rec.untouched)
 Covered == IOEnv.EXPECT_COUNT = "0" \/ Cardinality({<<Log[i].xs, Log[i].mold, Log[i].burn, Log[i].cells>> : i \in 1..Len(Log)}) = atoi(IOEnv.EXPECT_COUNT)
 =============================================================================
